@@ -34,6 +34,11 @@ inductive SlotOk (S : Schema) : FieldD → Val → Prop
   | unsetWrap (f : FieldD) (w : PType) : WrapField f w → f.optional = false → SlotOk S f Val.ph
   | noneWrap (f : FieldD) (w : PType) : WrapField f w → f.group = Option.none → SlotOk S f Val.none
   | wrap (f : FieldD) (w : PType) (v : Val) : WrapField f w → scalarOk w v = true → SlotOk S f v
+  -- REPEATED wrapper fields (`List[Optional[scalar]]`): a list of well-typed scalars of the wrapped type. No item
+  -- is `None`: `None` is written exactly like the wrapped default (`tag 00`) and read back as that default, and a
+  -- repeated message field of the reference implementation cannot hold a null element
+  | wraps (f : FieldD) (w : PType) (xs : List Val) : WrapsField f w → (∀ x ∈ xs, scalarOk w x = true) →
+      SlotOk S f (.list xs)
   -- map fields: unset, or a dict with well-typed pairwise different keys and well-typed scalar values
   -- / well-typed messages of the value class
   | unsetMapS (f : FieldD) : MapFieldS f → SlotOk S f Val.ph
